@@ -7,7 +7,3 @@ package c05
 func setMapMode(int) {}
 
 func executeModes(d *Data) (*violation, *stats) { return execute(d) }
-
-func mapOrderEvidence(st map[string]int64) any {
-	return map[string]any{"build": "standard: Go's own randomised map iteration order; the permutation seam runs in the map-order build (./check C05 runs both)"}
-}
